@@ -13,7 +13,7 @@ populated cache level is queried once more and compared with a fresh copy.
 
 Correspondence: the whole history is replayed by the Lean state machine `step` (HISTORY command);
 answers are compared, the content of every populated level of `_count_cache` / `_word_cache` is
-compared with the model's tables (the invariant `Inv` of Props/C20.lean, checked on the real
+compared with the model's tables (the invariant `CacheInv` of Props/C20.lean, checked on the real
 object after every call), and the driver re-checks at run time that `step` and the stateless
 `stepPure` agree.  Cache *lengths* and which cached_method tables are populated are compared with
 the model's snapshot as statistics only (a different but coherent caching policy is not a defect).
@@ -318,7 +318,7 @@ def run_history(ctx: Ctx, d: DFA, other: DFA, hist, origin: str, kmax: int):
             continue
         if m["ans"] != ("opaque",) and m["ans"] != a and not bad:
             ctx.corr_diff("HISTORY answer", dict(describe(d, other, hist[: i + 1]), index=i), a, m["ans"])
-        # Inv on the real object: every populated level holds the table of that level
+        # CacheInv on the real object: every populated level holds the table of that level
         if len(ct) > len(mct) or len(wt) > len(mwt):
             raise InfraError("cache longer than the tables requested from the model")
         if any(ct[j] != mct[j] for j in range(len(ct))) and not bad:
